@@ -6,7 +6,7 @@ from hypothesis import strategies as st
 
 from hxv.gen import configs as gc
 from hxv.gen import streams as gs
-from hxv.lib import build_indicator, mgr_kwargs, mk_candles, split_chunks, tf_seconds
+from hxv.lib import TZOFFS, build_indicator, mgr_kwargs, mk_candles, split_chunks, tf_seconds
 from hxv.ref import resample as rr
 
 
@@ -30,6 +30,8 @@ def twin_cases(draw, subject=None, max_n=60, tf_prob=2, with_fill=True, min_n=0,
         "preload": preload,
         "preload_calc": draw(st.booleans()),
         "chunks": draw(gs.chunking(n - preload)),
+        # timezone-aware timestamps with a fixed offset (the buckets are those of the timestamps' own wall clock)
+        "tzoff": draw(st.sampled_from(TZOFFS)) if with_ts else None,
     }
 
 
@@ -43,13 +45,14 @@ def schedule(case):
 
 def run_incremental(case, after_append=None, **extra):
     pre, chunks = schedule(case)
-    ind = build_indicator(case["cfg"], candles=mk_candles(pre), **mgr_kwargs(case), **extra)
+    tz = case.get("tzoff")
+    ind = build_indicator(case["cfg"], candles=mk_candles(pre, tz), **mgr_kwargs(case), **extra)
     if case.get("preload_calc"):
         ind.calculate()
         if after_append:
             after_append(ind)
     for ch in chunks:
-        ind.append(mk_candles(ch))
+        ind.append(mk_candles(ch, tz))
         if after_append:
             after_append(ind)
     if not chunks:
@@ -60,7 +63,7 @@ def run_incremental(case, after_append=None, **extra):
 
 
 def run_batch(case, rows=None, **extra):
-    ind = build_indicator(case["cfg"], candles=mk_candles(case["stream"] if rows is None else rows), **mgr_kwargs(case), **extra)
+    ind = build_indicator(case["cfg"], candles=mk_candles(case["stream"] if rows is None else rows, case.get("tzoff")), **mgr_kwargs(case), **extra)
     ind.calculate()
     return ind
 
